@@ -35,9 +35,9 @@ HUGE_EASY = [(3_000_000_000, 1), (0, 5_000_000_000)]  # class totals beyond 2^31
 def bounds(tier):
     if tier == "quick":
         return {"max_pos": 3, "max_neg": 3, "easy": [[0, 0], [1, 0], [0, 2], [2, 2]],
-                "grids": ["irregular", "int", "uint", "float32", "ulp"], "intervals": len(BASE_INTERVALS) + 1}
+                "grids": ["irregular", "int", "uint", "float32", "ulp", "mixed_narrow", "mixed_f32"], "intervals": len(BASE_INTERVALS) + 1}
     return {"max_pos": 4, "max_neg": 4, "easy": [[a, b] for a in range(4) for b in range(4)],
-            "grids": ["irregular", "int", "dyadic", "ulp", "uint", "float32"], "intervals": len(BASE_INTERVALS) + 1}
+            "grids": ["irregular", "int", "dyadic", "ulp", "uint", "float32"] + ot.MIXED_KINDS, "intervals": len(BASE_INTERVALS) + 1}
 
 
 def intervals(seed, tier="quick"):
@@ -76,7 +76,10 @@ def run(item, ctx, tier, seed):
     import numpy as np
 
     gkind = item["grid"]
-    pos, neg, vals = ot.concretise(blocks, "irregular" if gkind == "float32" else gkind, seed)
+    if gkind in ot.MIXED_KINDS:
+        pos, neg, vals, parr_, narr_ = ot.concretise_mixed(blocks, gkind)
+    else:
+        pos, neg, vals = ot.concretise(blocks, "irregular" if gkind == "float32" else gkind, seed)
     dt = {"uint": np.uint8, "float32": np.float32}.get(gkind)
     cross = any(a > 0 and c > 0 for a, c in blocks)
     anytie = any(a + c > 1 for a, c in blocks)
@@ -88,6 +91,8 @@ def run(item, ctx, tier, seed):
             case = {"blocks": item["blocks"], "grid": item["grid"], "pos": pos, "neg": neg, "cfg": cfg,
                     "easy": [ep, en]}
             pin, nin = (pos[::-1], neg[::-1]) if dt is None else (np.array(pos[::-1], dtype=dt), np.array(neg[::-1], dtype=dt))
+            if gkind in ot.MIXED_KINDS:
+                pin, nin = parr_.copy(), narr_.copy()
             ok, s = guarded(ctx, "construct", case, Scores, pin, nin, nb_easy_pos=ep, nb_easy_neg=en,
                             score_class=sc, equal_class=ec)
             if not ok:
